@@ -1337,6 +1337,52 @@ func c05InlinedSites(seed uint64) string {
 	return ""
 }
 
+// the same failing statement reached through a deep chain of calls (fourteen frames of one recursive helper) from two different
+// lines of the property: the line of the property is part of where the failure happened as long as it lies within the 32
+// frames rapid looks at
+func c05Deep(t *rapid.T, depth int) {
+	if depth == 0 {
+		t.Fatalf("bad book")
+	}
+	c05Deep(t, depth-1)
+}
+
+func c05DeepSites(seed uint64) string {
+	prop := func(t *rapid.T) {
+		kind := rapid.IntRange(0, 3).Draw(t, "kind")
+		v := rapid.IntRange(0, 1000).Draw(t, "v")
+		c05Site = 0
+		if kind == 0 {
+			if v >= 1 {
+				c05Site = 1
+				c05Deep(t, 14)
+			}
+		} else if v >= 500 {
+			c05Site = 2
+			c05Deep(t, 14)
+		}
+	}
+	var res rapid.VerifDoCheckResult
+	if p := runTB(func() { res = rapid.VerifDoCheck(newRecTB("deep"), farDeadline(), 100, seed, "", false, prop) }); p != nil {
+		return fmt.Sprintf("doCheck crashed: %v", p)
+	}
+	if res.Err1.IsNil() && res.Err2.IsNil() {
+		return ""
+	}
+	runTB(func() {
+		rapid.VerifCheckOnce(rapid.VerifNewT(newRecTB("deep"), rapid.VerifRandStream(res.Seed, false), false), prop)
+	})
+	found := c05Site
+	runTB(func() {
+		rapid.VerifCheckOnce(rapid.VerifNewT(newRecTB("deep"), rapid.VerifBufStream(res.Buf, false), false), prop)
+	})
+	final := c05Site
+	if found != final && res.Err1.Traceback() == res.Err2.Traceback() {
+		return fmt.Sprintf("the failure found came from call site %d of the property (through 14 frames of a helper), the minimized test case [%s] fails through call site %d and is reported as the same failure", found, joinU64(res.Buf), final)
+	}
+	return ""
+}
+
 func firstLine(s string) string {
 	if k := strings.IndexByte(s, '\n'); k >= 0 {
 		return s[:k]
@@ -2286,6 +2332,15 @@ func init() {
 				m.violate(violation{"C05", "inlined", what, map[string]string{"seed": fmt.Sprint(seed)}})
 			}
 		}
+		// two call sites of the property that reach the failing statement through a deep chain of calls
+		for k := 0; k < 4*scale; k++ {
+			seed := r.u64() | 1
+			m.tag("deep-call-sites")
+			m.eval(fmt.Sprint("deep", seed), true)
+			if what := c05DeepSites(seed); what != "" {
+				m.violate(violation{"C05", "deep", what, map[string]string{"seed": fmt.Sprint(seed)}})
+			}
+		}
 		// seven-word standalone groups that are not floats and get shorter when the float pass lowers one of their words
 		for _, k := range []int{4, 5, 6} {
 			for _, pre := range []int{0, 2} {
@@ -2320,6 +2375,11 @@ func init() {
 	replayers["gotest"] = func(v violation, tmp string) (bool, string) {
 		what, ran := c09GoTest(tmp)
 		return ran && what != "", what
+	}
+	replayers["deep"] = func(v violation, tmp string) (bool, string) {
+		seed, _ := strconv.ParseUint(v.Params["seed"], 10, 64)
+		what := c05DeepSites(seed)
+		return what != "", what
 	}
 	replayers["inlined"] = func(v violation, tmp string) (bool, string) {
 		seed, _ := strconv.ParseUint(v.Params["seed"], 10, 64)
